@@ -22,6 +22,7 @@ B3  every ROADM crossing recorded inside the real gnpy.topology.request.propagat
 """
 import json
 import random
+import time
 import traceback
 
 import numpy as np
@@ -461,6 +462,13 @@ def report_trace_verdicts(chk, traces, verdicts, origin):
 
 
 def run(chk):
+    t0 = time.time()
+    wall = {}
+
+    def lap(name):
+        nonlocal t0
+        wall[name] = round(time.time() - t0, 1)
+        t0 = time.time()
     offsets = 'MCOffsetVecsQuick' if chk.tier == 'quick' else 'MCOffsetVecsFull'
     maxloss = 'MCMaxLossVecsQuick' if chk.tier == 'quick' else 'MCMaxLossVecs'
     # ---- B1
@@ -478,15 +486,21 @@ def run(chk):
     chk.add_mc('emit configuration loads', r3)
     if not r2.emitted or not r3.emitted:
         raise Machinery('no case emitted')
+    lap('tlc')
     b2_traces = replay_crossings(r2.emitted, chk)
+    lap('b2_replay')
     replay_loads(r3.emitted, chk)
+    lap('b2_loads')
     # ---- B3
     rng = random.Random(chk.seed)
     traces = shipped_roadm_traces(chk, rng) + planning_traces(chk)
+    lap('b3_record')
     verdicts = L.judge(chk, traces, 'c06-trace')
     report_trace_verdicts(chk, traces, verdicts, 'B3')
     v2 = L.judge(chk, b2_traces, 'c06-trace-b2')
     report_trace_verdicts(chk, b2_traces, v2, 'B2trace')
+    lap('judge')
+    chk.cov['wall_breakdown_s'] = wall
     if traces and traces[0]['ev']:
         chk.sample(dict(kind='B3 ROADM crossing recorded in propagate() and judged by Trace_LineElements',
                         trace=traces[0]['name'], event={k: (v if k != 'ch' else v[:2]) for k, v in traces[0]['ev'][0].items()}))
